@@ -74,8 +74,10 @@ class Injector:
     """Counts the file-system events nessai issues on tracked files and kills the process
     (os._exit, no cleanup, no flush) before event k, or after j bytes of the write run k."""
 
-    def __init__(self, root, k, j, emit):
+    def __init__(self, root, k, j, emit, kk=None):
         self.root, self.k, self.j, self.emit = root, k, j, emit
+        self.kk = kk            # symbolic kill point: [kind, n] = before the n-th event of that kind
+        self.seen = {}
         self.n = 0
         self.armed = False
         self.depth = 0
@@ -87,6 +89,10 @@ class Injector:
         idx = self.n
         self.n += 1
         self.emit({"ev": kind, "i": idx, **kw})
+        self.seen[kind] = self.seen.get(kind, 0) + 1
+        if self.kk and kind == self.kk[0] and self.seen[kind] == self.kk[1] and kind != "write":
+            self.emit({"crash": "before", "i": idx, "kind": kind})
+            os._exit(CRASH_CODE)
         if self.k is not None and idx == self.k and kind != "write":
             self.emit({"crash": "before", "i": idx, "kind": kind})
             os._exit(CRASH_CODE)
@@ -474,8 +480,10 @@ def writer_phase(root, kwargs, step):
         apply_manip(root, step.get("manip", []))
         emit({"init_view": classify(root), "flow_weights_file": flow_file(root, ns)})
         ns._c11_ver = step.get("mark", 2)
-        emit({"new_ver": sampler_version(ns), "new_w": live_wspec(root, ns)})
-        inj = Injector(root, step.get("k"), step.get("j"), emit)
+        # the file this (resumed) sampler checkpoints to
+        emit({"new_ver": sampler_version(ns), "new_w": live_wspec(root, ns),
+              "held": model_name(root, getattr(ns, "resume_file", "") or "")})
+        inj = Injector(root, step.get("k"), step.get("j"), emit, step.get("kk"))
         inj.install()
         inj.armed = True
         run_writer(ns, root, step["writer"], emit)
@@ -575,6 +583,7 @@ def run_steps(root, snaps, kwargs_by_base, case, timeout):
         m = first(msgs, "new_ver")
         if m:
             rec["new_w"] = m["new_w"]
+            rec["held"] = m.get("held")
         m = first(msgs, "init_view")
         if m:
             rec["flow_weights_file"] = m.get("flow_weights_file")
